@@ -208,6 +208,22 @@ pub fn cells(tier: Tier) -> Vec<CellPlan> {
     c.rounds = 3;
     v.push(plan(c, if q { 1 } else { 2 }, 2.0));
 
+    // a late mutate message that names an entity the client has already despawned, followed by
+    // another entity; the re-sent copies are lost (one cell per payload length of the despawned
+    // entity's record: what a reader that lost its place makes of the rest depends on the bytes)
+    for len in [5u16, 6, 7, 8, 9, 13, 17, 33] {
+        let mut c = mutation_cell(&format!("late-despawned-{len}"));
+        c.cfg.with_big = true;
+        // (archetype order = order in the message: e1 first, e2 last)
+        c.init = vec![Op::Spawn(0, cells::M_A), Op::InsBig(0, len), Op::Spawn(1, cells::M_B)];
+        c.alphabet = vec![Op::Nop, Op::MutBig(0, len), Op::Mut(0, TA), Op::Mut(1, TB), Op::Despawn(0)];
+        c.ops_per_round = 2;
+        c.rounds = 2;
+        c.tick_choice = false;
+        c.env = Env { hold_acks: false, hold_updates: 0, mutations: MutMenu::Full, leftover_choice: true, lossy: false };
+        v.push(plan(c, 2, 0.5));
+    }
+
     // acknowledgement timeout shorter than the round trip: only "never skipped" is asserted
     let mut c = mutation_cell("timeout");
     c.cfg.timeout_ms = 20;
